@@ -173,7 +173,7 @@ def run_case(res, w, home, roots, snaps, spec, trace):
         return
     # order monitors (per root modes may differ: check each root's rows with its own mode)
     for (ri, spelling, a, b, mode) in spec:
-        check_order([x for x in rows_lv if x[0] == ri], mode.replace("symlinks", "").strip(), by_abs, res, ctxs)
+        check_order([x for x in rows_lv if x[0] == ri], " ".join(m for m in mode.split() if m in ("bfs", "dfs")), by_abs, res, ctxs)
     if any("symlinks" in s[4] for s in spec) and any("symlinks" not in s[4] for s in spec):
         res.count("per_root_symlinks_option")
     if trace:
@@ -203,7 +203,7 @@ def run_case(res, w, home, roots, snaps, spec, trace):
     if rows:
         res.nt("%s|%s" % ("+".join(tree.shape_key(snaps[s[0]]) for s in spec),
                           ";".join("%s,%s,%s,%s" % s[1:] for s in spec)))
-    res.cover("modes", ",".join(sorted(set(s[4].replace("symlinks", "").strip() or "default" for s in spec))))
+    res.cover("modes", ",".join(sorted(set(" ".join(m for m in s[4].split() if m in ("bfs", "dfs")) or "default" for s in spec))))
     res.cover("spellings", spec[0][1])
     res.cover("nroots", len(spec))
     for s in spec:
@@ -261,6 +261,11 @@ def run_job(job):
                     a = rng.choice([None, None, 0] + list(range(0, maxd + 3)))
                     b = rng.choice([None, None, 0] + list(range(0, maxd + 3)))
                     mode = rng.choice(["", "bfs", "dfs"])
+                    if rng.random() < 0.15:
+                        # `archives` adds rows for the members of zip files; these trees hold none (only files and directories
+                        # that are called *.zip, *.jar ...), so the rows stay exactly the same
+                        mode = (mode + " " + rng.choice(["archives", "arc"])).strip()
+                        res.count("archives_option_on_trees_without_archives")
                     if sp == "implicit":
                         a = b = None
                         mode = ""
